@@ -812,6 +812,16 @@ pub fn generate(prop: &str, tier: &str, seed: u64, out: &mut impl Write) {
                     w!("#@ C10 {tr} {} {} {}", dname(d), hex_of(&f), hex_of(&suffix));
                 }
             } }
+            // "appending any further bytes": suffixes that take the whole buffer just past 65 536 bytes (seed SJ2: a
+            // completeness test computed in 16 bits sees a 65 542-byte buffer as a 6-byte one)
+            for tr in ["rtu", "tcp"] { for d in [Dir::Req, Dir::Rsp] { for total in [65535usize, 65536, 65537, 65541, 65542, 65543, 65546, 131078] {
+                let f = { let mut f = gen_frame(r, tr, d); while f.len() > 40 || f.len() < 8 { f = gen_frame(r, tr, d); } f };
+                let suffix = r.bytes(total - f.len());
+                let mut ext = f.clone(); ext.extend(&suffix);
+                w!("{tr}scan {} {}", dname(d), hex_of(&ext));
+                w!("{tr}dec {} {}", dname(d), hex_of(&ext));
+                w!("#@ C10 {tr} {} {} {}", dname(d), hex_of(&f), hex_of(&suffix));
+            } } }
             for _ in 0..scale(tier, 250, 6000) {
                 for tr in ["rtu", "tcp"] {
                     for d in [Dir::Req, Dir::Rsp] {
@@ -869,6 +879,21 @@ pub fn generate(prop: &str, tier: &str, seed: u64, out: &mut impl Write) {
                     }
                 }
             }
+            // a long stream of short frames — more than 65 536 bytes pending when it arrives in one piece (seed SJ2);
+            // evaluated by the oracle on the crate only (the model's receiver is quadratic in the pending length)
+            for tr in ["rtu", "tcp"] { for d in [Dir::Req, Dir::Rsp] {
+                let f = { let mut f = gen_frame(r, tr, d); while f.len() > 12 { f = gen_frame(r, tr, d); } f };
+                let nf = 65544 / f.len() + 1;
+                let fs = vec![hex_of(&f); nf].join(",");
+                let stream: Vec<u8> = f.iter().cycle().take(nf * f.len()).cloned().collect();
+                let n = stream.len();
+                for cuts in [vec![], vec![n / 2 + 1], (1..n / 4096 + 1).map(|k| k * 4096).filter(|c| *c < n).collect::<Vec<usize>>()] {
+                    let mut chunks: Vec<String> = vec![]; let mut prev = 0;
+                    for c in cuts { chunks.push(hex_of(&stream[prev..c])); prev = c; }
+                    chunks.push(hex_of(&stream[prev..]));
+                    w!("#@ C11 {tr} {} {fs} {}", dname(d), chunks.join(","));
+                }
+            } }
             if tier == "thorough" {
                 // all 2^(n-1) cuts of one short stream per transport and direction
                 for tr in ["rtu", "tcp"] { for d in [Dir::Req, Dir::Rsp] {
@@ -1007,6 +1032,23 @@ pub fn generate(prop: &str, tier: &str, seed: u64, out: &mut impl Write) {
                 let mut buf = noise.clone(); buf.extend(&f);
                 w!("tcpscan {} {}", dname(d), hex_of(&buf)); w!("tcpdec {} {}", dname(d), hex_of(&buf));
                 w!("#@ C14 tcp {} {} {} -", dname(d), hex_of(&noise), hex_of(&f));
+            } } }
+            // a truncated, plausible MBAP header in front of a good frame: protocol id 0, a function code with a long
+            // announced payload, and a length field that agrees with the predicted length in ONE byte only (seed SH7:
+            // a header check that looks at the low byte alone waits for ever for the announced end)
+            for hi in [0x01u8, 0x80, 0xFF] { for lowdamage in [false, true] { for (d, head) in [
+                (Dir::Rsp, vec![0x03u8, 0xF0]), (Dir::Rsp, vec![0x01, 0xC8]), (Dir::Rsp, vec![0x17, 0x7E]),
+                (Dir::Req, vec![0x10u8, 0, 1, 0, 0x78, 0xF0]), (Dir::Req, vec![0x0F, 0, 1, 0x07, 0x80, 0xF0]),
+            ] {
+                let p = if d == Dir::Rsp { 2 + head[1] as usize } else { 6 + head[5] as usize };
+                let (lh, ll) = if lowdamage { ((((p + 1) >> 8) as u8), ((p + 1) as u8) ^ hi) } else { (hi, (p + 1) as u8) };
+                let mut noise = vec![0x00u8, 0x07, 0x00, 0x00, lh, ll, 0x11]; noise.extend(&head);
+                let f = { let mut f = gen_frame(r, "tcp", d); while f.len() > 40 { f = gen_frame(r, "tcp", d); } f };
+                for rest in [vec![], r.rbytes(1, 12)] {
+                    let mut buf = noise.clone(); buf.extend(&f); buf.extend(&rest);
+                    w!("tcpscan {} {}", dname(d), hex_of(&buf)); w!("tcpdec {} {}", dname(d), hex_of(&buf));
+                    w!("#@ C14 tcp {} {} {} {}", dname(d), hex_of(&noise), hex_of(&f), if rest.is_empty() { "-".to_string() } else { hex_of(&rest) });
+                }
             } } }
             // garbage whose candidate at offset 0 announces a long frame although its MBAP header is visibly not Modbus
             for n in [20usize, 263, 300] { let mut b = vec![0xFFu8; n]; b[7] = 0x01; w!("tcpscan rsp {}", hex_of(&b)); w!("#@ C14 tcp rsp {} - -", hex_of(&b)); }
